@@ -78,8 +78,9 @@ _MORE = {
             "third-party callees assumed read-only; plus deep-snapshot bounded check.", "static frame analysis of the real AST (may-alias) + bounded stand-in"),
     "C17": ("_match_exact (functional spec), _match_fuzzy (step contract: never overwrites, each consumed column under exactly one new key), _map_remaining_to_self and the bodies of "
             "infer_node_name_map / infer_edge_name_map proved: every column used by exactly one key, a column spelled like a required key or seg_id mapped to it. "
-            "Assumed: the step contract of the two display-name steps. Bounded: those two steps and an end-to-end cross-check with the real difflib on a vocabulary of similar/competing names.",
-            "contract-based deductive verification (loop invariants with ghost owner maps; callers checked against step contracts) + assumed contracts + bounded stand-in"),
+            "The two display-name steps (_match_display_names_exact / _fuzzy, multi-column features included) are proved against the same step contract. Assumed: difflib / str.lower / build_display_name_mapping. "
+            "Bounded: end-to-end cross-check with the real difflib on a vocabulary of similar/competing names.",
+            "contract-based deductive verification (loop invariants with ghost owner maps; callers checked against step contracts) + bounded cross-check"),
     "C18": ("add_cand_edges proved for every number of frames/detections/gaps: three nested loop invariants give 'edge a->b iff b is in the frame right after a's and within the maximum distance' "
             "(KDTree query and sorted keys assumed as external contracts); nodes_from_segmentation, nodes_from_points_list (no scale) and _compute_node_frame_dict proved to create one node per detection with its time / seg id / "
             "area / centroid and exactly the frame->nodes mapping the edge proof relies on. _get_iou_dict / add_iou proved to give every candidate edge the IoU of its two masks (0 without overlap; _compute_ious assumed). Bounded: point scaling, multiseg IoU and end-to-end cross-check on every placement of <=4 points in 4 frames and random label videos.",
